@@ -576,6 +576,10 @@ fn run_action(case: &Value, j: &J) -> Obs {
     if text2 != text {
         return o.fail(format!("re-serialised action differs: {text2}"), "action-rt-text");
     }
+    // structural equality, independent of the serialiser (derived Debug prints every field)
+    if format!("{a:?}") != format!("{a2:?}") {
+        return o.fail(format!("restored action differs structurally: {a:?} vs {a2:?}"), "action-rt-struct");
+    }
     let (codes, headers, bodies) = probe_of(case, &text);
     let ob1 = observe(&a, &codes, &headers, &bodies);
     let ob2 = observe(&a2, &codes, &headers, &bodies);
@@ -665,6 +669,9 @@ fn run_request(case: &Value, j: &J) -> Obs {
     let text2 = serde_json::to_string(&q2).unwrap();
     if text2 != text {
         return o.fail(format!("re-serialised request differs: {text2}"), "request-rt-text");
+    }
+    if format!("{q:?}") != format!("{q2:?}") {
+        return o.fail(format!("restored request differs structurally: {q:?} vs {q2:?}"), "request-rt-struct");
     }
     // C entry points
     unsafe {
